@@ -313,8 +313,7 @@ void small_free_memory_list::deallocate(void* mem) noexcept
 
     auto node = static_cast<unsigned char*>(mem);
 
-    auto chunk     = find_chunk_impl(node);
-    dealloc_chunk_ = chunk;
+    auto chunk = find_chunk_impl(node);
     // memory was never allocated from list
     detail::debug_check_pointer([&] { return chunk != nullptr; }, info, mem);
 
@@ -323,6 +322,9 @@ void small_free_memory_list::deallocate(void* mem) noexcept
     debug_check_pointer([&] { return offset % node_size_ == 0u; }, info, mem);
     // double-free
     debug_check_double_dealloc([&] { return !chunk->contains(node, node_size_); }, info, mem);
+
+    // update the cursor only now, the handlers above must see the list unchanged
+    dealloc_chunk_ = chunk;
 
     auto index = offset / node_size_;
     FOONATHAN_MEMORY_ASSERT(index < chunk->no_nodes);
